@@ -199,6 +199,10 @@ def check_property(prop, tier, repo="/repo", seed=0, write_evidence=True, only_r
         seen_k.add(f.key)
         print("KNOWN-FINDING: property=%s %s [%s] %s:%s %s" % (prop, k.get("what", f.msg), f.rule, f.file, f.line, f.construct))
     code = 0
+    if os.path.isdir(vdir) and not only_rules:
+        for fn in os.listdir(vdir):
+            if fn.startswith(prop + "-"):
+                os.remove(os.path.join(vdir, fn))
     if viol:
         code = 1
         os.makedirs(vdir, exist_ok=True)
